@@ -502,7 +502,7 @@ def run_exec_property(prop, tier, rng, n_quick, n_thorough, gen_kw, weights, nop
         out.extra["sub_profiles"] = [{"share": sh, "knobs": kw, "cases": nalt[k]} for k, (sh, kw) in enumerate(alts)]
     nonehits = sum(1 for c, r in zip(cases, res) for op, ob in zip(c["ops"], r["obs"]) if op[0] == "eval" and ob["out"] == ["val", None] and not ob["log"])
     out.extra["cache_hits_serving_None"] = nonehits
-    out.extra["theorem_hypotheses"] = "defs_ok (no call inside try), refn_ok (by-name reads of visible references), well-formed formula edits, no formula re-entered while executing"
+    out.extra["theorem_hypotheses"] = "refn_ok (by-name reads of visible references), no formula re-entered while executing"
     out.evaluations = len(cases)
     out.traces_validated = len(good) - len(bad)
     out.distinct_nontrivial = len({json.dumps(c, sort_keys=True) for c, r in zip(cases, res) if nontrivial(c, r)})
